@@ -258,6 +258,7 @@ pub fn run_history(h: &History, cfg: &RunCfg, fault: Option<Fault>, fault2: Opti
     wd.fin_events.set(0);
     wd.drop_events.set(0);
     wd.new_in_flight.set(0);
+    wd.nested_quiet.set(false);
     wd.cb_total.set(0);
     wd.unwrapping.set(None);
     reset_config();
@@ -782,6 +783,7 @@ pub fn emit_stats(rep: &mut Report) {
     rep.count("try_unwrap_ok", s.try_unwrap_ok.get());
     rep.count("try_unwrap_err", s.try_unwrap_err.get());
     rep.count("c02_quiet_checks", s.c02_checks.get());
+    rep.count("c02_quiet_checks_from_callbacks", s.c02_nested_checks.get());
     rep.count("pinned_garbage_left", s.pinned_garbage_left.get());
     rep.count("buffer_walks", s.buffer_walks.get());
     rep.count("buffer_exact_membership_checks", s.buffer_exact_checks.get());
